@@ -6,7 +6,7 @@ import os
 VERIF = os.path.dirname(os.path.dirname(os.path.abspath(__file__)))
 
 NOTE_COMMON = ("Trusted: Lean 4.33 kernel + Mathlib v4.33 (axioms propext, Classical.choice, Quot.sound only; audited each run), "
-               "harness/translate.py, the correspondence harness/driver I/O. Modelled not verified: IEEE-754 rounding, jnp.fft "
+               "the translators harness/translate*.py (Python ast -> Lean), the correspondence harness/driver I/O. Modelled not verified: IEEE-754 rounding, jnp.fft "
                "(as DFT sums), JAX tracing/jit/vmap/AD, jax.random.")
 
 CLAIMS = {
@@ -20,8 +20,15 @@ CLAIMS = {
                 "all fourteen stored coefficients |coef - dt*phi-combination(z)| <= |dt| c e^{max(0,z+R)} (r/R)^M/(1-(r/R)^M) for every "
                 "real z (zero, tiny and stiff alike), even M, r<R; with the code's defaults M=16, r=1 every coefficient is within "
                 "5e-8*|dt| of the exact Cox-Matthews value for every z<=0. Correspondence: stored arrays and step_fourier vs the "
-                "compiled model over a dense z cover. The global dt^p error decay is not proved (paper result; measured by the "
-                "oracle against an independent DOP853 reference).",
+                "compiled model over a dense z cover. ORDER (Properties/C02_order.lean): on the linear test family N(u)=mu*u, for every "
+                "lambda, mu in C (lambda=0 and tiny lambda*dt included), one regenerated ETDRKp step is multiplication by an explicit "
+                "R_p(lambda dt, mu dt), |R_p - e^{(lambda+mu)t}| <= C_loc t^{p+1} and n steps with n dt <= T are within "
+                "C_loc T exp((|lambda+mu| + C_loc T^p) T) dt^p |u| of the exact solution (explicit C_loc), p = 1..4; the order is "
+                "exactly p; a wrong weight (relative error eps in one coefficient, or the sign typo -4+z for -4-z in the ETDRK4 "
+                "weight) provably destroys it; exponential Euler with ANY globally Lipschitz nonlinear N on C^n with diagonal L "
+                "converges with order 1 and a constant depending on the spectrum only through max(0, sup Re lambda) (stiffness-"
+                "uniform). NOT proved: order 2..4 for genuinely nonlinear N and the transfer from exact to stored contour "
+                "coefficients (5e-8*|dt| floor) - measured by the oracle against an independent DOP853 reference.",
         "technique": "Lean 4 proof over translated ETDRK definitions + model/implementation correspondence",
         "design_ref": "DESIGN.md §5 C02",
     },
@@ -32,7 +39,10 @@ CLAIMS = {
                 "regenerated ETDRK code (scaling covariance step(dt,lambda,N)=step(1,dt*lambda,dt*N): only the non-dimensional "
                 "groups matter) and about the linear symbols regenerated from every class's _build_linear_operator: the six "
                 "General* classes share one symbol sum_j a_j sum_d (i k_d)^j, the Normalized/Difficulty classes inherit it, "
-                "Burgers / KS equal their generic equivalents. Correspondence: conversions; every member of the specific/generic/"
+                "Burgers / KS equal their generic equivalents; and about the WIRING regenerated from every class's __init__ / "
+                "_build_nonlinear_fun (37 classes, harness/translate_wiring.py): the difficulty and normalized interfaces hand their "
+                "parent exactly the documented conversions and every option unchanged, and specific / general / difficulty steppers "
+                "instantiate the same documented nonlinear term with the user's flags. Correspondence: conversions; every member of the specific/generic/"
                 "normalized/difficulty families vs the one model evaluated on the documented equivalent, EVERY combination of the "
                 "boolean options (conservative, single_channel, mixing flags); the regenerated symbol of every stepper class vs the "
                 "array the class builds. Oracle: specific-vs-generic pairs of the overview.",
@@ -53,9 +63,15 @@ CLAIMS = {
         "text": "Lean theorems about the decision logic (Layout.acceptsShape, Guards.*): accepted iff shape = (C, N,..,N) with D "
                 "spatial axes, hence wrong channel count / extra batch axis / missing axis / any unequal axis rejected and "
                 "accepted shapes returned unchanged; dimension, order-parity, generator-option and metric-mode guards equal the "
-                "documented tables. Correspondence: accept/reject/exception class of every exported stepper class (enumerated "
-                "from the package exports), RepeatedStepper, Poisson, operators, generators, metrics, nonlinear funs vs the model, exact.",
-        "technique": "Lean 4 proof of decision logic + exhaustive exact accept/reject correspondence over package exports",
+                "documented tables; the guards themselves are REGENERATED from every `if ...: raise` of the package on every run "
+                "(56 guarded functions, 77 raise sites, pinned) and each regenerated acceptance predicate is proved equal to the "
+                "documented one: BaseStepper / RepeatedStepper / ForcedStepper (state and forcing) accept iff the shape is exactly "
+                "(C, N,..,N), Poisson iff the spatial part is, the seven dimension-restricted constructors iff D is the documented "
+                "one, operator builders by order parity, generators by the documented option table. Correspondence: "
+                "accept/reject/exception class of every exported stepper class (enumerated from the package exports), "
+                "RepeatedStepper, ForcedStepper (state and forcing), Poisson, operators, generators (incl. the offset-range "
+                "generators), metrics, nonlinear funs vs the model, exact. (Repaired defect D9: ForcedStepper skipped the check.)",
+        "technique": "Lean 4 proof of decision logic over guards translated from the source + exhaustive exact accept/reject correspondence over package exports",
         "design_ref": "DESIGN.md §5 C20",
     },
     "C01": {
@@ -68,7 +84,8 @@ CLAIMS = {
                 "class's _build_linear_operator source (Advection, Diffusion, AdvectionDiffusion, Dispersion, HyperDiffusion both "
                 "flags, general linear family, Wave) equal the documented operators, with a coverage theorem over all 26 classes "
                 "that define an operator and the 11 that inherit one; closed forms of the documented symbols; wave stepper per mode: "
-                "exact rotation, DC drift, ODE, group law; rfftn/irfftn round trip all D, N. Correspondence: every linear class's "
+                "exact rotation, DC drift, ODE, group law; rfftn/irfftn round trip all D, N. the Wave stepper's constructor norm, transforms and step_fourier REGENERATED from "
+                "stepper/_wave.py equal the per-mode model. Correspondence: every linear class's "
                 "operator array vs polySymbol of the documented operator AND vs the regenerated symbol evaluated by the driver, "
                 "whole step vs the model, dt in {1e-3,1,1e3,-0.3}; Wave per mode.",
         "technique": "Lean 4 proof (symbol algebra, exact ODE solution per mode, DFT round trip) + model/implementation correspondence",
@@ -80,7 +97,8 @@ CLAIMS = {
                 "leading wavenumbers (all D>=1, N>=2), scaling arrays in closed form N^D/2^#halved, grid left-inclusive / "
                 "right-exclusive with spacing L/N, flat<->multi index bijection; DFT: irfftn(rfftn u)=u for every real u, all D>=1, "
                 "N>=1; single-mode read-off a cos(2 pi k x/L+phi) (1-D, incl. DC/Nyquist); Parseval in the half layout. "
-                "Correspondence: exhaustive exact comparison of wavenumbers, scalings, masks (every cutoff), slices for all N in "
+                "exponax.fft/ifft REGENERATED from _spectral.py (axis selection, inference of omitted "
+                "arguments) are the model transforms per channel. Correspondence: exhaustive exact comparison of wavenumbers, scalings, masks (every cutoff), slices for all N in "
                 "range x D in 1..3; rfftn/irfftn (non-Hermitian input too), make_grid, wrap_bc. Oracle: every wavenumber vector of "
                 "the layout as a single mode; ij/xy consistency.",
         "technique": "Lean 4 proof (integer layout + DFT theory) + exhaustive exact correspondence",
@@ -91,7 +109,8 @@ CLAIMS = {
                 "idempotent, is the identity on divergence-free input, is the matrix delta - d d^T/Lap; the 3-D rotational "
                 "convection term is divergence-free for every input, with and without Kolmogorov injection; every regenerated "
                 "ETDRK stage formula (orders 0-4) maps divergence-free spectra to divergence-free spectra for any nonlinear map with "
-                "divergence-free output, hence any rollout length. Correspondence: Leray, make_incompressible, ProjectedConvection3d, "
+                "divergence-free output, hence any rollout length. make_incompressible REGENERATED from _spectral.py is that "
+                "projection between the model transforms. Correspondence: Leray, make_incompressible, ProjectedConvection3d, "
                 "NavierStokesVelocity, KolmogorovFlowVelocity vs the model.",
         "technique": "Lean 4 proof (per-mode linear algebra + induction over ETDRK stages / rollout) + correspondence",
         "design_ref": "DESIGN.md §5 C10",
@@ -115,7 +134,8 @@ CLAIMS = {
                 "at most one bin, modes outside the Nyquist sphere are in none, on-axis modes make every bin non-empty; through "
                 "the model Spectrum.spectrum in every dimension: a cos(k.x+phi) shows |a| (amplitude) resp. a^2/4 (power) in the bin "
                 "of |k| and 0 elsewhere; 1-D full Parseval identity for every real state and both binnings; n-D: summed power + "
-                "power of the stored modes outside the Nyquist sphere = half the mean square. Correspondence: the bin of every "
+                "power of the stored modes outside the Nyquist sphere = half the mean square. get_spectrum / get_fourier_coefficients REGENERATED from "
+                "_spectral.py (scan over bins as a fold) equal the model read-offs. Correspondence: the bin of every "
                 "stored mode (exact) and full spectra (power/amplitude x sum/average x channels) vs the Spectrum model. Oracle: "
                 "amplitude read-off for every wavenumber vector, Parseval with the Nyquist-sphere truncation, average = sum / count.",
         "technique": "Lean 4 proof (integer bin arithmetic + n-D DFT read-off through the spectrum model) + exact per-mode correspondence",
@@ -145,7 +165,8 @@ CLAIMS = {
                 "Laplace symbols of every even order and gradient-inner-product symbols of every odd order in closed form; "
                 "Poisson: per mode zero mean mode / operator*solution = -rhs / guard only at the mean mode, and in physical space "
                 "the solver returns for every Nyquist-free right-hand side the field with modes divided by s^2|k|^2, which the model "
-                "Laplacian maps back to -f; transform round trip for all D, N. Correspondence: build_laplace_operator, derivative "
+                "Laplacian maps back to -f; transform round trip for all D, N. derivative and the Poisson solver "
+                "(inverse operator with zero-mode guard, step) REGENERATED from _spectral.py / _poisson.py equal the model routines. Correspondence: build_laplace_operator, derivative "
                 "(orders 1..6, C>=1), Poisson (orders 2, 4) vs the model on arbitrary states. Oracle: analytic derivatives of "
                 "Nyquist-free trigonometric polynomials, Poisson residual.",
         "technique": "Lean 4 proof (symbol algebra per mode + n-D DFT read-off of the model routines) + model/implementation correspondence",
@@ -170,7 +191,8 @@ CLAIMS = {
                 "Nyquist-free hypothesis is sharp (proved counterexample); mapping a state band-limited below both Nyquist "
                 "wavenumbers to any finer or coarser grid samples its own interpolant there (exact up- and down-sampling); "
                 "up-sampling from an odd grid is exact for every state; 1-D: there-and-back is the identity, integer refinement keeps "
-                "the samples; block-copy index theorems; same resolution is the identity. Correspondence: exact index maps for all "
+                "the samples; block-copy index theorems; same resolution is the identity. map_between_resolutions and FourierInterpolator REGENERATED from _interpolation.py "
+                "equal the model routines. Correspondence: exact index maps for all "
                 "(N_old, N_new) in range x D, map_between_resolutions and FourierInterpolator numerically. Oracle: Nyquist-free "
                 "trigonometric polynomials at arbitrary query points, round trips, mean.",
         "technique": "Lean 4 proof (DFT theory of the resampling routine + slice/index arithmetic) + exact index-map and numerical correspondence",
